@@ -7,6 +7,16 @@ RDIR = os.path.join(VERIF, 'replayer')
 LINKS = ['parent', 'prev', 'next', 'first', 'last']
 _built = {}
 
+if os.environ.get('VERIF_REPO') and os.path.abspath(os.environ['VERIF_REPO']) != '/repo':
+    # developer mode (seed experiments while /repo is busy): a scratch copy of the replayer that depends on the other checkout
+    import shutil
+    _src = RDIR
+    RDIR = '/var/tmp/replayer-' + re.sub(r'[^A-Za-z0-9]', '_', os.path.abspath(os.environ['VERIF_REPO']))
+    os.makedirs(os.path.join(RDIR, 'src'), exist_ok=True)
+    shutil.copy(os.path.join(_src, 'src', 'main.rs'), os.path.join(RDIR, 'src', 'main.rs'))
+    if os.path.exists(os.path.join(_src, 'Cargo.lock')): shutil.copy(os.path.join(_src, 'Cargo.lock'), os.path.join(RDIR, 'Cargo.lock'))
+    open(os.path.join(RDIR, 'Cargo.toml'), 'w').write(open(os.path.join(_src, 'Cargo.toml')).read().replace('/repo/indextree', os.path.join(os.path.abspath(os.environ['VERIF_REPO']), 'indextree')))
+
 
 def build(profile):
     """(re)build the replayer against /repo's current tree; returns binary path"""
